@@ -48,7 +48,7 @@ def generate(run_seed, tier):
                 raise out.exc
 
         g = W.Generator(rw, ref_compute, families=fams, knob_space=W.knob_space_default(), max_ops=16 if tier == "quick" else 24,
-                        min_ops=8, pool_knobs=True, knob_prob=0.7, max_rows=48)
+                        min_ops=8, pool_knobs=True, knob_prob=0.7, max_rows=rw.choice([48, 48, 160]))
         g.allow_partition_size = True
         recipe = g.generate(n_sources=rw.choice([1, 2]))
         if recipe is None:
